@@ -94,18 +94,28 @@ Proof.
   - intros x Hx. apply in_concat in Hx as (xs & Hxs & Hx). apply in_map_iff in Hxs as (y & <- & Hy).
     rewrite Forall_forall in IH. apply in_concat. exists (all_ids y). split; [now apply in_map|now apply (IH y Hy)].
   - destruct (senabled hi c); [exact IH|intros x []].
-  - destruct (admits thr hi); [exact IH|intros x []].
-  - apply incl_refl.
+  - destruct (admits thr hi && senabled hi c); [exact IH|intros x []].
+  - destruct (senabled hi c); [apply incl_refl|intros x []].
 Qed.
 
-(* Enabled never looks at the store's content beyond the shape *)
-Lemma renabled_senabled m hi : forall c sg, root_ok m sg c -> renabled hi c sg = senabled hi c.
+(* Enabled is a static fact of the root composition (lazyWithCore asks its immutable original core) *)
+Lemma renabled_senabled hi : forall c, renabled hi c = senabled hi c.
 Proof.
-  induction c as [co k|k|l IH|c IH|c IH|thr c IH|id lfs c IH] using lcomp_ind'; intros sg H; cbn [renabled senabled]; auto.
-  - apply root_ok_tee in H. induction IH as [|x r Hx _ IHr]; cbn [existsb]; [reflexivity|].
-    inversion H; subst. rewrite (Hx sg), IHr; auto.
-  - apply root_ok_lazy in H as [Hc [Hcell _]]. unfold cell_ok in Hcell. rewrite Hcell.
-    destruct (lookup id m); [apply penabled_pexp|now apply IH].
+  induction c as [co k|k|l IH|c IH|c IH|thr c IH|id lfs c IH] using lcomp_ind'; cbn [renabled senabled]; auto;
+    try (now rewrite IH).
+Qed.
+
+(* a composition that is disabled at this level emits nothing and registers nothing *)
+Lemma swalk_disabled m hi nm msg w fs : forall c ch nn, senabled hi c = false ->
+  swalk m hi nm msg w fs c ch nn = ([], [], nn).
+Proof.
+  induction c as [co k|k|l IH|c IH|c IH|thr c IH|id lfs c IH] using lcomp_ind'; intros ch nn H; cbn [senabled] in H; try discriminate.
+  - rewrite swalk_tee. revert nn. induction IH as [|x r Hx _ IHr]; intros nn; cbn [swalk_list]; [reflexivity|].
+    cbn [existsb] in H. apply orb_false_iff in H as [H1 H2]. rewrite (Hx ch nn H1). now rewrite (IHr H2 nn).
+  - cbn [swalk]. now rewrite H.
+  - cbn [swalk]. rewrite (IH ch nn H). now destruct nn.
+  - cbn [swalk]. now rewrite H.
+  - cbn [swalk]. now apply IH.
 Qed.
 
 (* the specification's walk only reads the marks of the cells an entry of this level reaches *)
@@ -123,8 +133,9 @@ Proof.
     + intros id Hin. apply H. apply in_app_iff in Hin as [Hin|Hin]; apply in_app_iff; [left; apply in_app_iff; now left|now right].
   - cbn [swalk]. destruct (senabled hi c); [|reflexivity]. now rewrite (IH ch nn H).
   - cbn [swalk]. now rewrite (IH ch nn H).
-  - cbn [swalk]. destruct (admits thr hi); [|reflexivity]. now rewrite (IH ch nn H).
-  - cbn [swalk]. apply IH. intros i Hin. apply H. rewrite lazy_ids_cons_lazy in Hin.
+  - cbn [swalk]. destruct (admits thr hi && senabled hi c); [|reflexivity]. now rewrite (IH ch nn H).
+  - cbn [swalk]. destruct (senabled hi c) eqn:Een; [|now rewrite !swalk_disabled].
+    apply IH. intros i Hin. apply H. rewrite lazy_ids_cons_lazy in Hin.
     apply in_app_iff in Hin as [Hin|[<-|Hin]]; apply in_app_iff.
     + left. apply in_app_iff. left. now apply (log_ids_incl hi c).
     + left. apply in_app_iff. right. now left.
@@ -279,7 +290,7 @@ Proof.
   - cbn [all_ids log_ids wf_lcomp] in *. apply root_ok_tee in Hok.
     destruct (rlog_list_spec hi nm msg w fs l IH sg m nn Hwf Hnd Hok) as (sg' & E & Hok' & Hfr).
     exists sg'. rewrite rlog_tee, swalk_tee, E. split; [reflexivity|]. split; [now apply root_ok_tee|exact Hfr].
-  - cbn [rlog swalk log_ids all_ids wf_lcomp] in *. rewrite (renabled_senabled m hi c sg Hok).
+  - cbn [rlog swalk log_ids all_ids wf_lcomp] in *. rewrite (renabled_senabled hi c).
     destruct (senabled hi c).
     + destruct (IH sg m nn Hwf Hnd Hok) as (sg' & E & Hok' & Hfr). exists sg'. rewrite E.
       destruct (swalk _ hi nm msg w fs c [] nn) as [[c1 w1] n1]. auto.
@@ -287,11 +298,13 @@ Proof.
   - cbn [rlog swalk log_ids all_ids wf_lcomp] in *.
     destruct (IH sg m nn Hwf Hnd Hok) as (sg' & E & Hok' & Hfr). exists sg'. rewrite E.
     destruct (swalk _ hi nm msg w fs c [] nn) as [[c1 w1] n1]. auto.
-  - cbn [rlog swalk log_ids all_ids wf_lcomp] in *. destruct (admits thr hi).
+  - cbn [rlog swalk log_ids all_ids wf_lcomp] in *. rewrite (renabled_senabled hi c). destruct (admits thr hi && senabled hi c).
     + exact (IH sg m nn Hwf Hnd Hok).
     + exists sg. cbn [mark_all]. auto.
   - cbn [all_ids log_ids wf_lcomp] in *. apply andb_true_iff in Hwf as [Hwl Hwc].
+    cbn [rlog]. rewrite (renabled_senabled hi c). destruct (senabled hi c) eqn:Een.
+    2:{ exists sg. cbn [mark_all swalk]. rewrite swalk_disabled by exact Een. auto. }
     destruct (init_once_root w id lfs c (rwith_spec w c) sg m Hnd Hok) as (sg' & E & Hok' & Hfr).
-    exists sg'. cbn [rlog swalk]. rewrite E. split; [|split; assumption]. f_equal.
+    exists sg'. cbn [swalk]. rewrite E. split; [|split; assumption]. f_equal.
     apply plog_pexp; [exact Hfs|exact Hwc|]. cbn [wf_items forallb]. unfold wf_item. cbn [item_fs]. now rewrite Hwl.
 Qed.
